@@ -113,11 +113,31 @@ def setup_engine(E):
     E.I.contracts["a816.cpu.mapping.Address.__add__"] = "vf.specs.busmodel.address_add_spec"
 
 
+def shape_parse_map(style):
+    def sh(B):
+        f = {"hex": lambda v: f"{v:#x}", "dec": str, "bin": lambda v: f"{v:#b}"}[style]
+        vals = {"identifier": 7, "bank_range": (0x10, 0x2f), "addr_range": (0x8000, 0xffff), "mask": 0x8000, "writable": 1, "mirror_bank_range": (0x90, 0xaf)}
+        items = []
+        for k, v in vals.items():
+            items += [("IDENTIFIER", k), ("EQUAL", "=")]
+            if isinstance(v, tuple):
+                items += [("NUMBER", f(v[0])), ("COMMA", ","), ("NUMBER", f(v[1]))]
+            else:
+                items += [("NUMBER", f(v))]
+        items.append(("EOF", ""))
+        toks = [B.inst("a816.parse.tokens.Token", type=B.enum("a816.parse.tokens.TokenType", tt), value=v, position=None) for tt, v in items]
+        p = B.inst("a816.parse.parser.Parser", tokens=B.list(toks), pos=0, initial_state=None)
+        return {"p": p, "expected": B.dict(vals)}
+    return sh
+
+
 def live_bus_cases(E):
     return [Case(H + "lorom_bus_contract", "live low_rom_bus", shape_builtin("low_rom_bus")), Case(H + "hirom_bus_contract", "live high_rom_bus", shape_builtin("high_rom_bus"))]
 
 
-def cases(E):
+def address_contract_cases(E):
+    """the obligations that ESTABLISH the contract of Address.__add__ / the offset formula and its inverse -- properties that use that contract modularly
+    (C02, C03) run them too, so that each check is self-contained"""
     cs = []
     for mask in (0x8000, 0x10000):
         for wr in (False, True):
@@ -137,6 +157,11 @@ def cases(E):
     cs.append(Case(H + "address_add_refines_spec_contract", "RAM", shape_bus(0x10000, True, 0x8000, False), target=["a816.cpu.mapping.Address.__add__"]))
     cs.append(Case(H + "address_add_non_int_contract", "any", shape_bus(0x8000, False)))
     cs.append(Case(H + "get_address_contract", "RAM", shape_bus(0x10000, True), target=["a816.cpu.mapping.Bus.get_address"]))
+    return cs
+
+
+def cases(E):
+    cs = address_contract_cases(E)
     for ident in ("X", "A"):
         for with_mirror in (False, True):
             for mask, wr in ((0x8000, False), (0x10000, True)):
@@ -144,6 +169,8 @@ def cases(E):
                                shape_bus_map(ident, mask, wr, with_mirror), target=["a816.cpu.mapping.Bus.map"]))
     cs.append(Case(H + "bus_map_contract", "frozen", shape_bus_map("X", 0x8000, False, True, editable=False), target=["a816.cpu.mapping.Bus.map"]))
     cs += live_bus_cases(E)
+    for style in ("hex", "dec", "bin"):
+        cs.append(Case(H + "parse_map_literals_contract", f"numbers written in {style}", shape_parse_map(style), target=["a816.parse.parser_states.parse_map"]))
     for attr in ("low_rom_bus", "high_rom_bus"):
         cs.append(Case(H + "beyond_bus_contract", f"live {attr}", shape_builtin(attr), target=["a816.cpu.mapping.Address._get_bank", "a816.cpu.mapping.Address._get_mapping"]))
     # the consumer of the translation: `*=` sets the output offset to the translated file offset (offset 0 included), on every bus kind
